@@ -10,6 +10,12 @@ TRUSTED = [
     "Go harness harness/cmd/hC02 (corpus/query generators, AST printer) and harness/internal/fracbuild",
     "hand-written transcription props/C02/coq/ModelTx.v of the active index (TokenLIDs, mergeSorted, inverser, "
     "inverseLIDs, AppendIDs), tied to /repo by unit-level classes through frac/export_verif_c02.go and by scripts",
+    "ModelTxStep.v: GetLIDs as two steps (take the queue / sort+merge) with PutLIDsInQueue in between, fresh-queue "
+    "discipline proved for every interleaving, shared-backing-array variant refuted; tied to /repo by forcing the window "
+    "on the real TokenLIDs / active fraction (the MIDs write lock is held so that GetLIDs waits in mids.GetVals() after "
+    "taking the queue: frac/export_verif_c02_window.go; the in-window bulk is published by hand through AppendIDs + "
+    "PutLIDsInQueue + UpdateStats, its tokens must exist already). One reader at a time (sortedMu) is part of the model, "
+    "not proved of the code",
     "hand-written transcription props/C02/coq/ModelSealed.v + SealedLids.v (copy of C03's LID-block model) of the SEALED "
     "search path at the level of numbers: ID blocks with their minima and sealedIDsIndex.LessOrEqual, the dictionary in "
     "(field, token) order, getLIDsBlockGenerator, Chunks.Pack/unpack on varint values, lids.Table, IteratorAsc/Desc; and "
@@ -37,7 +43,7 @@ ASSUME = [
     "not-yet-acknowledged documents)",
 ]
 RULE = ("random trees of real merge nodes (AND/OR/NAND/NOT, depth <= 4, both directions) over shaped static "
-        "posting lists; BuildORTree over 0-9 lists; real TokenLIDs under scripted PutLIDsInQueue/GetLIDs (duplicate LIDs inside and across batches, equal (MID,RID), puts after gets); real inverser + inverseLIDs on random mappings; active fractions <= 100 docs as scripts of bulks and searches replayed by the transcribed model; random corpora (1-40 docs, a few of 300-1500 (quick: 300-900) / 1000-3000 plus two sealed ones above 4096 IDs (thorough), equal "
+        "posting lists; BuildORTree over 0-9 lists; real TokenLIDs under scripted PutLIDsInQueue/GetLIDs (duplicate LIDs inside and across batches, equal (MID,RID), puts after gets); real inverser + inverseLIDs on random mappings; real TokenLIDs with 1-3 PutLIDsInQueue executed INSIDE the window between 'queue taken' and 'merged' of a GetLIDs (token-lids-window); 40 (quick) / 400 active fractions where a second bulk is published inside the window of a bare GetLIDs or of a real Search, then positive / NOT / any-token queries with total and histogram, twice (window-active), and the in-window search itself (window-active-reader); active fractions <= 100 docs as scripts of bulks and searches replayed by the transcribed model; random corpora (1-40 docs, a few of 300-1500 (quick: 300-900) / 1000-3000 plus two sealed ones above 4096 IDs (thorough), equal "
         "MIDs, extreme RIDs, documents carrying the same token 2-3 times, 1-4 out-of-order bulks with a checked search between bulks on all tokens / on the tokens of the next bulk) in real active / sealed / "
         "sealed-and-reloaded fractions and (every 4th small corpus) the sealed LID path rebuilt by the real block generator "
         "with capacity 1-16 (continued blocks, blocks shared by tokens, field ends), 8-12 requests each (boolean trees with "
